@@ -141,10 +141,12 @@ type mon = {
 }
 
 let rec violate (m : mon) (prop : string) (text : string) =
-  if not (List.exists (fun (p, _) -> p = prop) m.viol) then
-    m.viol <- (prop, Printf.sprintf "%s step %d (%s): %s%s" m.tname m.step m.label m.tag text) :: m.viol;
-  (* C09: C01, C02 and C07 continue to hold under membership changes *)
-  if (prop = "C01" || prop = "C02" || prop = "C07") && not m.static_membership then violate m "C09" (prop ^ " under membership changes: " ^ text)
+  (* C01-C04 and C07 are stated for static membership; that they continue to hold under add/promote/demote/remove
+     requests is C09: in a trace with membership requests their violations are C09's *)
+  if List.mem prop ["C01"; "C02"; "C03"; "C04"; "C07"] && not m.static_membership then
+    violate m "C09" (prop ^ " under membership changes: " ^ text)
+  else if not (List.exists (fun (p, _) -> p = prop) m.viol) then
+    m.viol <- (prop, Printf.sprintf "%s step %d (%s): %s%s" m.tname m.step m.label m.tag text) :: m.viol
 
 let parse_log (s : string) : (int * string) list =
   (* "0:?:p,1:1:c1{0:1,1:1},2:1:n" -> [(1,"1:c1{..}"); (2,"1:n")] ; commas inside {} are not separators *)
